@@ -47,6 +47,23 @@ def sources(tier, seed, ctx):
         [(18, 18, 'KARATSUBA'), (20, 20, 'DEFAULT'), (21, 21, 'KARATSUBA'), (24, 15, 'KARATSUBA'), (40, 40, 'DEFAULT'), (17, 19, 'DADDA'), (16, 16, 'WALLACE'), (15, 15, 'POW2_M1'), (12, 20, 'ALTER'), (25, 25, 'POW2_M1'), (31, 31, 'POW2_M1'), (33, 40, 'POW2_M1'), (63, 63, 'POW2_M1'), (26, 26, 'DADDA'), (26, 26, 'WALLACE'), (30, 30, 'ALTER'), (23, 23, 'KARATSUBA'), (25, 19, 'KARATSUBA')]
     for n, m, mode in wide:
         srcs.append({'fn': 'mul', 'n': n, 'm': m, 'mode': mode, 'big': bool(n % 2), 'gen': True, 'host': None})
+    # asymmetric shapes: a narrow operand against a wide one (sparse partial-product columns), both ways round
+    for mode in MODES:
+        for n in (1, 2, 3):
+            for m in (range(7, 15) if n == 2 else range(7, 12)) if tier == 'quick' else range(7, 26 - 3 * n):
+                a, b = (n, m) if (n + m) % 2 else (m, n)
+                srcs.append({'fn': 'mul', 'n': a, 'm': b, 'mode': mode, 'big': bool(m % 2), 'gen': True, 'host': None})
+                if n == 2:
+                    srcs.append({'fn': 'mul', 'n': b, 'm': a, 'mode': mode, 'big': not bool(m % 2), 'gen': True, 'host': None})
+        for _ in range(3 if tier == 'quick' else 25):
+            n, m = rng.randint(1, 6), rng.randint(7, 24)
+            if rng.random() < 0.5:
+                n, m = m, n
+            srcs.append({'fn': 'mul', 'n': n, 'm': m, 'mode': mode, 'big': rng.random() < 0.5, 'gen': True, 'host': None})
+    # nested Karatsuba recursion (max width >= 33) in both endiannesses
+    for n, m, big in ([(33, 33, True), (34, 33, False)] if tier == 'quick' else [(33, 33, True), (34, 33, False), (35, 40, True), (36, 36, True), (41, 33, False)]):
+        for mode in ('KARATSUBA', 'DEFAULT'):
+            srcs.append({'fn': 'mul', 'n': n, 'm': m, 'mode': mode, 'big': big, 'gen': True, 'host': None})
     for n in range(1, (7 if tier == 'quick' else 10) + 1):
         for mode in ('DEFAULT', 'POW2_M1'):
             for big in (False, True):
